@@ -105,6 +105,38 @@ def check_constant_third(ctx, fmt, n, kind, seed, value):
         ctx.case((fmt, kind, seed, l, "const", value), nontrivial=True, branch="constant-third/select%d" % s)
 
 
+def check_single_3b(ctx, fmt, n, seed):
+    """A pass in 3a except ONE 3b line, with realistic telemetry: while 3a is active the channel-3 internal-target words are
+    dark (0), so that single line is the only one with valid 3b calibration data.  It must still deliver the calibration of
+    its third sample - the same value as in an all-3b pass with the same samples and a constant internal-target count."""
+    rng = random.Random(repr((seed, fmt, n, "single3b")))
+    j = rng.choice([0, n - 1, rng.randrange(n)])
+    vals = {}
+    for tag in ("test", "ref"):
+        pb = filegen.PassBuilder(ctx, fmt, n, random.Random(repr((seed, fmt, n))))
+        pb.samples[:, 2::5] = pb.nprng.integers(60, 1000, size=pb.samples[:, 2::5].shape)
+        sw = np.ones(n, dtype=int)
+        sw[j] = 0
+        if tag == "ref":
+            sw[:] = 0
+        else:
+            dark = np.ones(n, dtype=bool)
+            dark[j] = False
+            pb.ict[dark, 0] = 0
+        pb.bitfield = sw.astype(np.uint16)
+        r = filegen.make_reader(ctx, fmt, data=pb.tobytes(), name=pb.dsname)
+        vals[tag] = np.array(r.get_calibrated_channels())
+    payload = {"fmt": fmt, "n": n, "seed": seed, "kind": "single-3b", "line": j}
+    a, b = vals["test"][j, :, 3], vals["ref"][j, :, 3]
+    if not np.allclose(a, b, atol=1e-6, equal_nan=True):
+        ctx.violation("%s pass in 3a except line %d (3b; internal-target words dark on the 3a lines): that line delivers 3b = %s, the "
+                      "calibration of its third sample is %s" % (fmt, j, a[:2], b[:2]), payload, cls="3b:single-line")
+    others = [i for i in range(n) if i != j]
+    if not np.isnan(vals["test"][others][:, :, 3]).all() or not np.isnan(vals["test"][j, :, 2]).all():
+        ctx.violation("%s pass in 3a except line %d: 3a / 3b delivered on the wrong lines" % (fmt, j), payload, cls="3b:single-line-pattern")
+    ctx.case((fmt, n, seed, "single3b", j), nontrivial=True, branch="single-3b-line")
+
+
 def check_klm(ctx, fmt, n, kind, seed, drv, start_ms=None):
     rng = random.Random(repr((seed, fmt, n, kind)))
     sw = sequence(kind, n, rng)
@@ -187,6 +219,8 @@ def run(ctx):
     check_klm(ctx, "klmLac", 5, "all-transition", ctx.seed * 1000 + k + 14, drv)
     for j, (kind, value) in enumerate([("random", 0), ("all3b", 0), ("switch-once", 1023), ("3b+transition", 0)]):
         check_constant_third(ctx, "klmGac", 20, kind, ctx.seed * 1000 + k + 20 + j, value)
+    for j in range(3):
+        check_single_3b(ctx, "klmGac", (8, 12, 60)[j], ctx.seed * 1000 + k + 30 + j)
     check_klm(ctx, "klmGac", 60, "random", ctx.seed * 1000 + k + 3, drv)
     # a NOAA-16 pass lying entirely inside a listed scan-motor interval (2004-01-14): the later masking step must not
     # undo the 3a / 3b blanking
